@@ -163,16 +163,32 @@ where
     })
 }
 
+/// the engine's error type, reached through the public `Result` alias (its module is private)
+trait ErrOf {
+    type E;
+}
+impl<T, E> ErrOf for std::result::Result<T, E> {
+    type E = E;
+}
+type EngineError = <expression_engine::Result<()> as ErrOf>::E;
+
 fn mk_err(k: usize) -> expression_engine::Result<Value> {
-    // `Error` is not nameable from outside the crate; this is how a user handler fails.  The
-    // error variant rotates with the invocation index (which variant is never demanded)
-    match k % 5 {
-        0 => Value::None.bool().map(|_| Value::None),
-        1 => Value::None.decimal().map(|_| Value::None),
-        2 => Value::None.integer().map(|_| Value::None),
-        3 => Value::None.string().map(|_| Value::None),
-        _ => Value::None.list().map(|_| Value::None),
-    }
+    // this is how a user handler fails; the error variant rotates with the invocation index
+    // (which variant a handler returns must not matter to the engine)
+    Err(match k % 12 {
+        0 => EngineError::ShouldBeBool(),
+        1 => EngineError::ShouldBeNumber(),
+        2 => EngineError::InvalidInteger,
+        3 => EngineError::ShouldBeString(),
+        4 => EngineError::ShouldBeList(),
+        5 => EngineError::ReferenceNotExist("injected".to_string()),
+        6 => EngineError::FunctionNotExist("injected".to_string()),
+        7 => EngineError::InnerFunctionNotRegistered("injected".to_string()),
+        8 => EngineError::NotReferenceExpr,
+        9 => EngineError::UnexpectedEOF(0),
+        10 => EngineError::PrefixOpNotRegistered("injected".to_string()),
+        _ => EngineError::ParamInvalid(),
+    })
 }
 
 fn payload_string(p: Box<dyn std::any::Any + Send>) -> String {
@@ -509,6 +525,11 @@ pub static LAST_PANIC: StdMutex<String> = StdMutex::new(String::new());
 /// including the injected ones we catch; replace it with a quiet recorder.
 fn quiet_hook() {
     if !HOOK_SET.swap(true, Ordering::SeqCst) {
+        if std::env::var("VERIF_LOUD").is_ok() {
+            // debugging aid: keep the default hook (prints every panic, with a backtrace if asked for)
+            let _ = std::panic::take_hook();
+            return;
+        }
         std::panic::set_hook(Box::new(|info| {
             if let Ok(mut g) = LAST_PANIC.lock() {
                 *g = info.to_string();
